@@ -136,6 +136,14 @@ func extractShared(repo, out string) ([]string, error) {
 	dirs := []struct{ dir, pkg string }{{"oj", "oj"}, {"gen", "gen"}, {"sen", "sen"}, {"jp", "jp"}, {"alt", "alt"},
 		{"asm", "asm"}, {"pretty", "pretty"}, {".", "ojg"}}
 	var vars []*shVar
+	global := map[string]*shVar{} // "pkg.Name" of exported variables, for references from other packages
+	type pkgState struct {
+		pkg    string
+		files  []*ast.File
+		byName map[string]*shVar
+		specOf map[string]*ast.ValueSpec
+	}
+	var states []*pkgState
 	for _, d := range dirs {
 		fset := token.NewFileSet()
 		ents, err := os.ReadDir(filepath.Join(repo, d.dir))
@@ -189,10 +197,19 @@ func extractShared(repo, out string) ([]string, error) {
 						byName[nm.Name] = v
 						specOf[nm.Name] = vs
 						vars = append(vars, v)
+						if v.exported {
+							global[d.pkg+"."+nm.Name] = v
+						}
 					}
 				}
 			}
 		}
+		states = append(states, &pkgState{pkg: d.pkg, files: files, byName: byName, specOf: specOf})
+	}
+	for _, st := range states {
+		files, byName, specOf := st.files, st.byName, st.specOf
+		thisPkg := st.pkg
+		var imports map[string]string // local name -> package name, per file (set before each file is scanned)
 		// the variable an identifier refers to (nil if it is local or not a package variable)
 		ref := func(id *ast.Ident) *shVar {
 			v := byName[id.Name]
@@ -214,6 +231,11 @@ func extractShared(repo, out string) ([]string, error) {
 			case *ast.Ident:
 				return ref(t)
 			case *ast.SelectorExpr:
+				if id, ok := t.X.(*ast.Ident); ok && id.Obj == nil && byName[id.Name] == nil {
+					if pk := imports[id.Name]; pk != "" {
+						return global[pk+"."+t.Sel.Name] // a variable of another package of the module (or nil)
+					}
+				}
 				return root(t.X)
 			case *ast.IndexExpr:
 				return root(t.X)
@@ -227,6 +249,13 @@ func extractShared(repo, out string) ([]string, error) {
 			return nil
 		}
 		add := func(v *shVar, w string) {
+			if v.pkg != thisPkg { // written from another package: say which
+				if k := strings.IndexByte(w, ':'); k >= 0 && (strings.HasPrefix(w, "addr:") || strings.HasPrefix(w, "call:")) {
+					w = w[:k+1] + thisPkg + "/" + w[k+1:]
+				} else {
+					w = thisPkg + "/" + w
+				}
+			}
 			for _, x := range v.writers {
 				if x == w {
 					return
@@ -235,6 +264,19 @@ func extractShared(repo, out string) ([]string, error) {
 			v.writers = append(v.writers, w)
 		}
 		for _, f := range files {
+			imports = map[string]string{}
+			for _, im := range f.Imports {
+				path := strings.Trim(im.Path.Value, "\"")
+				if !strings.HasPrefix(path, "github.com/ohler55/ojg") {
+					continue
+				}
+				name := path[strings.LastIndexByte(path, '/')+1:]
+				local := name
+				if im.Name != nil {
+					local = im.Name.Name
+				}
+				imports[local] = name
+			}
 			for _, dc := range f.Decls {
 				fd, ok := dc.(*ast.FuncDecl)
 				if !ok || fd.Body == nil {
@@ -244,6 +286,7 @@ func extractShared(repo, out string) ([]string, error) {
 					continue // runs before any goroutine of the program
 				}
 				fn := fd.Name.Name
+
 				if fd.Recv != nil && len(fd.Recv.List) > 0 {
 					t := fd.Recv.List[0].Type
 					if s, ok := t.(*ast.StarExpr); ok {
@@ -304,7 +347,8 @@ func extractShared(repo, out string) ([]string, error) {
 	b.WriteString("Every package-level `var` of oj, gen, sen, jp, alt, asm, pretty and the root package: syntactic shape and\n")
 	b.WriteString("the functions that write it outside `init` (\"addr:f\": its address is taken in f; \"call:f.M\": method M is called on it in f). -/\n")
 	b.WriteString("namespace OjgVerif.Gen.SharedState\n\n")
-	b.WriteString("structure PkgVar where\n  pkg : String\n  name : String\n  shape : String\n  exported : Bool\n  writers : List String\n  deriving DecidableEq, Repr\n\n")
+	b.WriteString("/-- a write: kind (\"assign\" | \"addr\" | \"call\"), the function it is in, the method called (for \"call\") -/\n")
+	b.WriteString("structure PkgVar where\n  pkg : String\n  name : String\n  shape : String\n  exported : Bool\n  writers : List (String × String × String)\n  deriving DecidableEq, Repr\n\n")
 	b.WriteString("def vars : List PkgVar := [\n")
 	for i, v := range vars {
 		sort.Strings(v.writers)
@@ -312,8 +356,21 @@ func extractShared(repo, out string) ([]string, error) {
 		if i == len(vars)-1 {
 			sep = ""
 		}
-		fmt.Fprintf(&b, "  { pkg := %q, name := %q, shape := %q, exported := %v, writers := %s }%s\n",
-			v.pkg, v.name, v.shape, v.exported, ruLeanList(v.writers), sep)
+		ws := make([]string, len(v.writers))
+		for k, w := range v.writers {
+			kind, fn, m := "assign", w, ""
+			if strings.HasPrefix(w, "addr:") {
+				kind, fn = "addr", w[5:]
+			} else if strings.HasPrefix(w, "call:") {
+				kind = "call"
+				rest := w[5:]
+				dot := strings.LastIndexByte(rest, '.')
+				fn, m = rest[:dot], rest[dot+1:]
+			}
+			ws[k] = fmt.Sprintf("(%q, %q, %q)", kind, fn, m)
+		}
+		fmt.Fprintf(&b, "  { pkg := %q, name := %q, shape := %q, exported := %v, writers := [%s] }%s\n",
+			v.pkg, v.name, v.shape, v.exported, strings.Join(ws, ", "), sep)
 	}
 	b.WriteString("]\n\nend OjgVerif.Gen.SharedState\n")
 	if len(vars) < 20 {
